@@ -97,6 +97,38 @@ func registerHarnessIntrinsics() {
 		},
 		"verifDependsOn":  hDependsOn,
 		"verifUF":         hUF,
+		"verifJSString": func(e *Exec, a []Value, s *ssa.CallCommon) Value {
+			return e.newJS(&jsVal{what: "arg", typ: e.c64(4), str: a[0].(*StrV)})
+		},
+		"verifJSNumber": func(e *Exec, a []Value, s *ssa.CallCommon) Value {
+			return e.newJS(&jsVal{what: "arg", typ: e.c64(3), num: a[0].(*Term)})
+		},
+		"verifJSOther": func(e *Exec, a []Value, s *ssa.CallCommon) Value {
+			// a value of an arbitrary JS type given by the tag (0..7) without usable payload
+			return e.newJS(&jsVal{what: "arg", typ: a[0].(*Term), str: e.constString("x"), num: e.c64(1)})
+		},
+		"verifJSResult": hJSResult,
+		"verifJSRegistered": func(e *Exec, a []Value, s *ssa.CallCommon) Value {
+			name := e.mustConcreteString(a[0], "global name")
+			n := 0
+			for _, r := range e.jsGlobals {
+				if r.name == name {
+					n++
+				}
+			}
+			return e.c64(int64(n))
+		},
+		"verifJSRegisteredFn": func(e *Exec, a []Value, s *ssa.CallCommon) Value {
+			name := e.mustConcreteString(a[0], "global name")
+			for _, r := range e.jsGlobals {
+				if r.name == name {
+					if fv, ok := r.fn.(*FuncV); ok && fv.fn != nil {
+						return e.constString(fv.fn.Name())
+					}
+				}
+			}
+			return e.constString("")
+		},
 		"verifIteI64": func(e *Exec, a []Value, s *ssa.CallCommon) Value {
 			return e.tb.Ite(a[0].(*Term), a[1].(*Term), a[2].(*Term))
 		},
@@ -159,8 +191,8 @@ func registerHarnessIntrinsics() {
 			}
 			ts := append([]*Term{}, e.randStreams[i]...)
 			arr := e.mkBytes(ts, e.newObj("intrinsic", "rand-stream"))
-			n := e.c64(int64(len(ts)))
-			return &SliceV{arr: arr, off: e.c64(0), len: n, cap: n}
+			n := e.randLens[i] // bytes actually delivered (symbolic for a direct Reader.Read)
+			return &SliceV{arr: arr, off: e.c64(0), len: n, cap: e.c64(int64(len(ts)))}
 		},
 		"verifSkipCase": func(e *Exec, a []Value, s *ssa.CallCommon) Value {
 			panic(pathAbort{"skipped", "case combination not applicable"})
@@ -892,4 +924,23 @@ func (e *Exec) strDeps(s *StrV, prefix string) (attacker, secret bool) {
 		}
 	}
 	return
+}
+
+// verifJSResult(v any) (kind int, b bool, s string): decodes what a binding returned
+// (js.ValueOf(bool) -> kind 2, js.ValueOf(string) -> kind 4, anything else -> its JS type tag).
+func hJSResult(e *Exec, a []Value, s *ssa.CallCommon) Value {
+	iv := a[0].(*IfaceV)
+	jv := e.jsOfOK(iv.v)
+	if jv == nil {
+		return &TupleV{E: []Value{e.c64(-1), e.tb.False(), e.constString("")}}
+	}
+	b := e.tb.False()
+	str := e.constString("")
+	if jv.num != nil && jv.typ.IsConst() && jv.typ.val == 2 {
+		b = e.tb.Ne(jv.num, e.c64(0))
+	}
+	if jv.str != nil {
+		str = jv.str
+	}
+	return &TupleV{E: []Value{jv.typ, b, str}}
 }
